@@ -232,4 +232,19 @@ PROPS = {
         assumptions=[],
         trusted_base=["PyYAML (docutils string settings), docutils OptionParser"],
     ),
+    "C17": dict(
+        level="exploration",
+        contracts=[],
+        harness=True,
+        explanation=(
+            "BOUNDED ONLY: every html_block / html_inline token that is not a convertible form reaches the doctree as a "
+            "raw html node with exactly the token text under all four HTML-extension subsets; <img> and "
+            "<div class=admonition> (title paragraph, <p> flattening, entities, inner Markdown) give the same doctree as "
+            "the equivalent image / admonition directive; in GFM mode no raw node still opens or closes a tag of the "
+            "disallowed list, for every tag in 11 spellings (including '<tag/attr>' and upper case)."
+        ),
+        assumptions=["markdown-it-py html_block / html_inline tokenisation"],
+        trusted_base=[],
+        technique="bounded run-time stand-in (generated HTML snippets, directive-spelling equivalence) - no contract discharged for html_to_nodes yet",
+    ),
 }
